@@ -17,10 +17,10 @@ def validate_encoded(string):
   try:
     json.loads(string)
   except Exception as err:
-    raise Exception(
+    raise gfapy.FormatError(
     "{} is not a valid JSON string\n".format(repr(string))+
     "json.loads raised a {} exception\n".format(err.__class__.__name__)+
-    "error message: {}").format(str(err)) from err
+    "error message: {}".format(str(err))) from err
 
 def validate_decoded(obj):
   if isinstance(obj, gfapy.FieldArray):
